@@ -57,6 +57,8 @@ type groupCase struct {
 	Brokers     int            `json:"brokers"`
 	Partitions  int            `json:"partitions"`
 	HeartbeatMs int            `json:"heartbeat_ms"`
+	// SessionMs: ConsumerGroupConfig.SessionTimeout (0 = 10 s)
+	SessionMs int `json:"session_ms,omitempty"`
 	BackoffMs   int            `json:"backoff_ms"`
 	WatchMs     int            `json:"watch_ms"`
 	Rounds      []round        `json:"rounds"`
@@ -142,7 +144,7 @@ func run(tb ev.TB, c groupCase) (labels []string, nontrivial bool) {
 	hb := time.Duration(c.HeartbeatMs) * time.Millisecond
 	backoff := time.Duration(c.BackoffMs) * time.Millisecond
 	cfg := kafka.ConsumerGroupConfig{ID: group, Brokers: []string{"b1.fake:9092"}, Dialer: &kafka.Dialer{DialFunc: nw.Dial, Timeout: 2 * time.Second, ClientID: "c15"},
-		Topics: []string{topic}, HeartbeatInterval: hb, SessionTimeout: 10 * time.Second, RebalanceTimeout: 300 * time.Millisecond, JoinGroupBackoff: backoff,
+		Topics: []string{topic}, HeartbeatInterval: hb, SessionTimeout: sessionOf(c), RebalanceTimeout: 300 * time.Millisecond, JoinGroupBackoff: backoff,
 		WatchPartitionChanges: c.WatchMs > 0, PartitionWatchInterval: time.Duration(c.WatchMs) * time.Millisecond, Timeout: 2 * time.Second, StartOffset: kafka.FirstOffset}
 	if c.MissingTopic {
 		cfg.Topics = append(cfg.Topics, "later")
@@ -614,6 +616,8 @@ func run(tb ev.TB, c groupCase) (labels []string, nontrivial bool) {
 		start  time.Time
 		end    time.Time
 		beats  int
+		first  time.Time // arrival of the first and of the last heartbeat
+		last   time.Time
 	}
 	gens := map[int32]*genInfo{}
 	var order []int32
@@ -645,6 +649,10 @@ func run(tb ev.TB, c groupCase) (labels []string, nontrivial bool) {
 			return
 		}
 		gi.beats++
+		if gi.first.IsZero() {
+			gi.first = ex.At
+		}
+		gi.last = ex.At
 		if !gi.end.IsZero() && ex.At.After(gi.end.Add(50*time.Millisecond)) {
 			fail("c15/heartbeat-after-generation-ended", "heartbeat seq %d for generation %d arrived %v after that generation had been replaced or the group closed", ex.Seq, gid, ex.At.Sub(gi.end))
 			return
@@ -662,6 +670,13 @@ func run(tb ev.TB, c groupCase) (labels []string, nontrivial bool) {
 			}
 		}
 		life := live.Sub(gi.start)
+		// "at the configured interval": not more often either (a ticker never runs ahead, whatever the load)
+		if span := gi.last.Sub(gi.first); gi.beats >= 4 {
+			if most := int(span/hb) + int(span/hb)/4 + 3; gi.beats-1 > most {
+				fail("c15/heartbeats-too-frequent", "generation %d: %d heartbeats arrived within %v; HeartbeatInterval is %v (SessionTimeout %v), at that interval at most %d fit", id, gi.beats, span, hb, sessionOf(c), most+1)
+				return
+			}
+		}
 		if life >= 10*hb+time.Second {
 			want := int(life/hb) / 4
 			if gi.beats < want {
@@ -781,6 +796,13 @@ func run(tb ev.TB, c groupCase) (labels []string, nontrivial bool) {
 	return labels, nontrivial
 }
 
+func sessionOf(c groupCase) time.Duration {
+	if c.SessionMs > 0 {
+		return time.Duration(c.SessionMs) * time.Millisecond
+	}
+	return 10 * time.Second
+}
+
 func genCase(t *rapid.T) groupCase {
 	c := groupCase{
 		Brokers:     rapid.IntRange(1, 2).Draw(t, "brokers"),
@@ -798,6 +820,19 @@ func genCase(t *rapid.T) groupCase {
 		rd := round{WaitMs: rapid.SampledFrom([]int{0, 5, 30}).Draw(t, "mtWaitMs"), End: "topic-created"}
 		for k, n := 0, rapid.IntRange(1, 3).Draw(t, "mtFns"); k < n; k++ {
 			rd.Fns = append(rd.Fns, fnSpec{Kind: "wait"})
+		}
+		c.Rounds = []round{rd}
+		c.CloseAtEnd = true
+		return c
+	}
+	if rapid.IntRange(0, 29).Draw(t, "slowHeartbeat") == 0 {
+		// an interval that is long compared with the session timeout (more than a third of it): it is still the configured one
+		c.HeartbeatMs = rapid.IntRange(250, 400).Draw(t, "slowHeartbeatMs")
+		c.SessionMs = c.HeartbeatMs * rapid.SampledFrom([]int{3, 4, 5}).Draw(t, "sessionHalves") / 2
+		rd := round{WaitMs: 5*c.HeartbeatMs + 100, End: rapid.SampledFrom([]string{"close", "rebalance", "fn-return"}).Draw(t, "slowEnd")}
+		rd.Fns = append(rd.Fns, fnSpec{Kind: "wait"})
+		if rd.End == "fn-return" {
+			rd.Fns = append(rd.Fns, fnSpec{Kind: "early", Ms: rd.WaitMs})
 		}
 		c.Rounds = []round{rd}
 		c.CloseAtEnd = true
